@@ -26,6 +26,9 @@ def run(ctx, db, tier):
     unblock_future(ctx, db)
     sync_block(ctx, db)
     one_step(ctx, db)
+    state_recorded(ctx, db)
+    from . import C01
+    C01.has_value_agrees(ctx, db, 'C13.has-value-agrees')
     atomic.check_roles(ctx, db, 'C13.block-flag-orders', only_functions={P + '::next_sync', P + '::unblock_sync'}, floor=3)
     if ctx.cfg == 'assert':
         witness.positive(ctx, 'C13.types', 'C13_pos.cpp', 'generator is move-only, starts suspended, hands out its awaiter / iterator / future types')
@@ -73,6 +76,15 @@ def ask_siblings(ctx, db):
                     go = index_of(tr, lambda ev: (ev.k == 'call' and norm(ev.get('callee')) in ('std::coroutine_handle::resume', 'std::coroutine_handle::operator()')) or ev.k == 'return' and name.endswith('next_async'))
                     if w < 0 or (go >= 0 and w > go):
                         seen_bad = seen_bad or (f, 'the asker is not recorded before the generator body runs (the yield would find nobody to wake)', tr)
+                    # (c) an access style that parks the shared internal awaiter as the asker configures it for itself first: the other style
+                    # may have left its own completion function there
+                    if w >= 0 and '_internal' in (tr[w].get('rhs') or ''):
+                        want = {'next_sync': 'resume_fn_sync', 'next_future': 'resume_fn_future'}.get(name.split('::')[-1])
+                        cfg = [i for i, it in enumerate(tr) if it.k == 'call' and norm(it.get('callee') or '') == 'cocls::awaiter::set_resume_fn' and (it.get('recv') or '').endswith('_internal')]
+                        if not cfg or (go >= 0 and cfg[-1] > go):
+                            seen_bad = seen_bad or (f, 'the internal awaiter is made the asker without being configured for this access style before the generator runs (it may still carry the other style\'s completion function)', tr)
+                        elif want and want not in ((tr[cfg[-1]].get('args') or [{}])[0].get('path') or ''):
+                            seen_bad = seen_bad or (f, 'the internal awaiter is configured with %s, not with %s' % ((tr[cfg[-1]].get('args') or [{}])[0].get('path'), want), tr)
             if not refused and not seen_bad:
                 seen_bad = (f, 'no path refuses a finished generator', [])
         ctx.ob(rid, f0, f0['key'], seen_bad is None, '%s refuses finished, records asker first' % name.split('::')[-1] + ('' if not seen_bad else ' -- ' + seen_bad[1]), desc=seen_bad[1] if seen_bad else None,
@@ -248,3 +260,21 @@ def one_step(ctx, db):
                 continue
             seen.add(k)
             ctx.ob(rid, f, f['key'], ok, '%s observes without advancing' % name.split('::', 1)[1], desc='%s advances the generator [%d,%d] steps' % (name, a, b))
+
+
+def state_recorded(ctx, db):
+    """next_awt remembers in _state that the step has been taken; operator bool and operator! use it to decide whether to call the generator.
+    Every way of finishing a step must record it, otherwise co_await n followed by if (n) advances the generator twice (every other item is skipped)"""
+    rid = ctx.rule('C13.step-recorded', 'PATHS', 'generator::next_awt::await_resume stores the outcome of the step into _state on every path (the same value it returns): a later '
+                   'conversion to bool of the same next_awt must not advance the generator again', floor=1)
+    for f, trs in traces_of(db, 'cocls::generator::next_awt::await_resume', per_instance=False):
+        trs = [t for t in trs if live(t)]
+        ctx.paths(rid, len(trs))
+        bad = None
+        for tr in trs:
+            ws = [it for it in tr if it.k == 'write' and (it.get('path') or '').endswith('->_state')]
+            if not ws:
+                bad = bad or ('a path returns the state of the generator without recording it in _state', tr)
+            elif (ret_expr(tr) or '') not in ('this->_state', ws[-1].get('rhs')):
+                bad = bad or ('the value returned (%s) is not the value recorded' % ret_expr(tr), tr)
+        ctx.ob(rid, f, f['key'], bad is None and len(trs) > 0, 'the step taken is recorded' + ('' if not bad else ' -- ' + bad[0]), desc=bad[0] if bad else None, trace=fmt_trace(bad[1]) if bad else None)
